@@ -436,6 +436,7 @@ func runC16(r *mc.Report, e *Env) {
 		if e.Of > 1 {
 			if i == 0 {
 				c16Samples(r)
+				c16Config(r)
 			}
 			c16Run(r, c, func(d string) { r.Exec(label(d)); e.FinishNow(r) })
 			return
@@ -444,6 +445,7 @@ func runC16(r *mc.Report, e *Env) {
 		r.Exec(label(d))
 	}
 	c16Samples(r)
+	c16Config(r)
 }
 
 func c16Samples(r *mc.Report) {
@@ -478,6 +480,11 @@ func c16AllCases(thorough bool) []c16Case {
 }
 
 func replayC16(r *mc.Report, e *Env, raw json.RawMessage) {
+	var cc c16ConfigCase
+	if err := json.Unmarshal(raw, &cc); err == nil && cc.Part == "command-line-limit" {
+		c16ConfigRun(r, cc)
+		return
+	}
 	var c c16Case
 	if err := json.Unmarshal(raw, &c); err != nil {
 		panic(err)
